@@ -130,6 +130,8 @@ def run(ctx):
     check_cis_operator(ctx, "R9")
     from ..assembly import check_cis_energy
     check_cis_energy(ctx, "R9")
+    from ..assembly import check_phase_alignment
+    check_phase_alignment(ctx, "R9")
 
     for rel, drv, helper in DRIVERS:
         mod = repo.mod(rel)
